@@ -230,5 +230,8 @@ fn main() {
             2
         }
     };
+    // the per-process scratch directory of this process, if one was created and is empty again
+    // (helper children and replays are not reaped by a supervisor that would remove it)
+    let _ = std::fs::remove_dir(std::env::temp_dir().join(format!("tuverif-{}", std::process::id())));
     exit(code);
 }
